@@ -297,12 +297,45 @@ PROPS["C09"] = dict(
     assumptions=["a handler blocked in a library call without deadline outside the connection (none found) would only show in the runs"],
 )
 
+PROPS["C01"] = dict(
+    modules=["HT.Props.C01"],
+    streams=["c01proc"],
+    rule="lab child process = this harness binary running a real Honeytrap (VerifNew) with the real socket listener on "
+         "loopback ports, all 25 lab services, the real Run() accept loop; the parent sends scenarios over real sockets: "
+         "per service generated dialogues, protocol-specific legal-but-unusual sequences (directory changes after login, "
+         "ipp without end tag, vnc pixel-format change then update request, ssh channel requests with short payloads "
+         "over a real authenticated ssh session, tftp writers), their truncations and mutations, raw bytes; one write / "
+         "byte-by-byte / half-close; 1..4 (128 for tftp) concurrent connections; after every scenario: child alive "
+         "(exit status, panic:/fatal error: banner on stderr) and a fresh echo connection served; heap in use of the "
+         "child sampled twice while the client is idle; model-compared: the strings the real exec-request handler decodes "
+         "from payloads with every tail length; non-trivial = non-empty input",
+    trusted=COMMON_TB + ["verif hook server/verif_hooks.go (VerifNew)",
+                         "fatal errors that need a race (concurrent map access) are provoked by concurrency, not enumerated: "
+                         "a run can miss them",
+                         "modelled, not verified: the services themselves; only the recover boundary, the ssh payload loop, "
+                         "the redis nesting bound (C04 model) and the ipp loops (C17 model) have Lean models"],
+    assumptions=["inputs up to the explored sizes (quick: a few KiB per connection; the stack-exhaustion input of 24 MB is a thorough-tier case)"],
+)
+
 HOOK_COMMITS = ["0596fc6", "c47bf54", "a8020ca", "beeea88", "49bef1d", "2596f07"]
 
 NOT_BUILT = "check not built yet in this round (design in DESIGN.md section 7); not claimed until its theorems and correspondence stream exist"
 NOT_APPLICABLE = {("C%02d" % i): NOT_BUILT for i in range(1, 21)}
 
 MANIFEST_TEXT = {
+    "C01": dict(
+        text="Lean theorems: confinement - for any number of connections and service goroutines ending in any order, if every "
+             "ending is a return or a panic under a recover the process is alive, has closed every connection and reported "
+             "every recovered panic, and one fatal error or one panic outside a recover ends it for good (so the property "
+             "reduces to the absence of those, which the lab looks for); the ssh request-payload loop ends for every "
+             "payload (and span for ever before the fix). Tied to the code by a lab child process running the real accept "
+             "loop on loopback sockets, checked for survival and service after every scenario, heap sampled while idle, and "
+             "by the decoded exec strings of real ssh sessions compared with the model.",
+        design_ref="DESIGN.md section 7, C01 and section 11",
+        note="Partial: absence of fatal errors/unrecovered panics in the services is established by exploration (grammar, "
+             "mutation, concurrency), not by proof; data races are provoked probabilistically.",
+        technique="Lean 4 proof (confinement by induction over endings, loop termination) + process-level exploration with liveness probe",
+    ),
     "C09": dict(
         text="Lean theorems: the read loop over a datagram connection ends after at most length+1 reads for every datagram "
              "and buffer size (and, with the connection as it was, never ends for any); the ledger of goroutines and "
